@@ -90,9 +90,8 @@ theorem foldl_fcStep_sumVotes (hA : LawfulArith A) (s0 : St α) (hwf : s0.WF) (b
     rw [this]; ring
 
 /-- **the bundle holds after quota calculation, first count and `begin`** -/
-theorem Inv.init (hA : LawfulArith A) (q : α) {s0 : St α} (h0 : Init A s0) (hq : 0 < q) :
-    Inv A (((firstCount A (s0.setQuota q)).setExhausted A.zero).logAct A "begin" "Begin Count" []) := by
-  apply Inv.logAct
+theorem Inv.initCore (hA : LawfulArith A) (q : α) {s0 : St α} (h0 : Init A s0) (hq : 0 < q) :
+    Inv A ((firstCount A (s0.setQuota q)).setExhausted A.zero) := by
   set s1 : St α := s0.setQuota q with hs1
   have hsk1 : s1.skel = s0.skel := rfl
   rw [firstCount_eq]
@@ -186,6 +185,11 @@ theorem Inv.init (hA : LawfulArith A) (q : α) {s0 : St α} (h0 : Init A s0) (hq
         show (s1.ballots.foldl (fcStep A) s1).sumVotes + A.zero ≤ ((t.nballots : Int) : α) * A.one
         have : t.nballots = s0.nballots := f4
         rw [this, hsum, hA.zero_eq, add_zero] }
+
+/-- **the bundle holds after quota calculation, first count and `begin`** -/
+theorem Inv.init (hA : LawfulArith A) (q : α) {s0 : St α} (h0 : Init A s0) (hq : 0 < q) :
+    Inv A (((firstCount A (s0.setQuota q)).setExhausted A.zero).logAct A "begin" "Begin Count" []) :=
+  (Inv.initCore A hA q h0 hq).logAct A _ _ _
 
 theorem Inv.wigmInit (hA : LawfulArith A) (o : WigmOpts) {s0 : St α} (h0 : Init A s0)
     (hq : 0 < wigmQuota A o s0) : Inv A (Droop.wigmInit A o s0) := by
